@@ -73,6 +73,9 @@ pub fn script(seed: u64, name: &str, quick: bool) -> Vec<Case7> {
                 _ => rng.range(1, 200) as usize,
             };
             let T = if name != "common" { rng.range(1, 9) as usize } else { T };
+            // two block sizes of the common script carry huge symbols in their first repetition (plan replay,
+            // direct solve and every kernel on symbols of tens of kilobytes, in every configuration)
+            let T = if name == "common" && rep == 0 && K == 12 { 40001 } else if name == "common" && rep == 0 && K == 26 { 65528 } else { T };
             // repair ESIs whose packets are digested: the first few, random ones, the top ones, the
             // overflow-sensitive ones (C15)
             let mut repair_esis: Vec<u32> = (0..6).map(|i| K as u32 + i).collect();
